@@ -99,6 +99,18 @@ CLAIMED = {
              'Props/C11.lean; h_range harness (real range matchers evaluated on run-time data through param_matches) and generator. '
              'libstdc++ algorithms (std::equal, std::mismatch, std::find_if, std::all_of...) are modelled by their specification.',
         technique='Lean 4 proof (loop refinement to Forall2 / Subperm / Perm) + exhaustive model/implementation correspondence'),
+    'C10': dict(
+        text='Theorems (structural, for every nesting and every value): the any_true/all_true folds are exactly exists/forall over the '
+             'operands (foldAny_eq, foldAll_eq, anyOf_iff_exists, allOf_iff_forall, noneOf_iff_not_exists); !m = negation (eval_not); *m = '
+             'non-null and pointee accepted, null never dereferenced (eval_deref, eval_deref_null); MEMBER_IS (eval_member); re = non-null '
+             'and found (re_iff, search is an oracle); the six comparisons on ints and strings, null comparison (cmp_int, cmp_str, cmp_null); '
+             'plain value operand = eq (plain_value_operand_int); laws (not_anyOf_eq_noneOf, double_negation, empty_operands, '
+             'noneOf_eq_allOf_not). Tie: generated C++ expressions compiled against the real headers, evaluated over whole domains.',
+        ref='DESIGN.md §4 C10', engine='lean-matcher',
+        note='Trusted: Lean kernel; axioms propext/Classical.choice/Quot.sound; statements in Props/C10.lean; generator + generated harness; '
+             'std::regex_search modelled as an oracle (answers from Python re on a common pattern subset); the C++ overload/template '
+             'machinery selecting duck-typed vs typed matchers is exercised, not modelled.',
+        technique='Lean 4 proof (structural induction over matcher trees) + generated-program correspondence'),
 }
 
 ALL = ['C%02d' % i for i in range(1, 21)]
@@ -131,6 +143,8 @@ def main():
                    baseline_off_cmd='cmake --build /repo/_build -j16 && /repo/_build/test/self_test',
                    source_commits=[], add_only=True),
         engines=[
+            dict(name='lean-matcher', path='lean/TrompModel/Model/Matcher.lean', serves_properties=['C10'],
+                 kind_free_text='Lean 4 model of scalar matchers/combinators + theorems (Props/C10.lean); tools/matchergen.py emits C++ trees'),
             dict(name='lean-range', path='lean/TrompModel/Model/Range.lean', serves_properties=['C11'],
                  kind_free_text='Lean 4 model of the range checkers + theorems (Props/C11.lean); harness/range evaluates the real matchers'),
             dict(name='lean-world', path='lean/', serves_properties=[p for p in ALL if p in CLAIMED and CLAIMED[p].get('engine', 'lean-world') == 'lean-world'],
